@@ -208,6 +208,62 @@ def rule_r2_r3_r4(ctx, rep):
         if not adv:
             rep.add("R2", fi.qname, call, f"the insertion index does not advance by one per inserted copy: the copies end up in reverse order "
                     f"or interleaved", fi.loc(call))
+    # ---- R3 (cont.): the copies go into the tree as they were copied: nothing expand calls on a copy, and no statement of
+    # expand, writes a field of the copy (other than attaching it)
+    from .c11 import get_effects as _ge
+    eff_ = _ge(ctx)
+    copy_vars = set()
+    for n in ast.walk(fi.node):
+        if isinstance(n, ast.Assign) and len(n.targets) == 1 and isinstance(n.targets[0], ast.Name) and isinstance(n.value, ast.Call) \
+                and isinstance(n.value.func, ast.Attribute) and n.value.func.attr == "copy" and not n.value.args and ft.type_of(n.value.func.value) in (T_NODE, T_OPT):
+            copy_vars.add(n.targets[0].id)
+    # nodes below a copy (loop variables over its children) are part of the copy
+    for _ in range(3):
+        for n in ast.walk(fi.node):
+            if isinstance(n, ast.For) and isinstance(n.target, ast.Name):
+                b_ = n.iter
+                while isinstance(b_, (ast.Attribute, ast.Subscript, ast.Call)):
+                    b_ = b_.func.value if isinstance(b_, ast.Call) and isinstance(b_.func, ast.Attribute) else (b_.args[0] if isinstance(b_, ast.Call) and b_.args else getattr(b_, "value", None))
+                    if b_ is None:
+                        break
+                if isinstance(b_, ast.Name) and b_.id in copy_vars:
+                    copy_vars.add(n.target.id)
+    from ..types import MUTATING_METHODS as _MM
+    for n in ast.walk(fi.node):
+        if isinstance(n, ast.Call) and isinstance(n.func, ast.Attribute) and n.func.attr in _MM:
+            b_ = n.func.value
+            depth_ = 0
+            while isinstance(b_, (ast.Attribute, ast.Subscript)):
+                b_, depth_ = b_.value, depth_ + 1
+            if isinstance(b_, ast.Name) and b_.id in copy_vars and depth_ >= 1:
+                rep.oblige(("R3", "untouched", norm(n)[:50]), False)
+                rep.add("R3", fi.qname, n, "expand changes a container of a copy before attaching it: what takes the place of the references node is no longer a "
+                        "copy of the referenced element's child", fi.loc(n))
+    for n in ast.walk(fi.node):
+        if isinstance(n, ast.Call):
+            for tg in w.resolve_call(ft, n):
+                H = tg.func
+                if H is None or H.name in ("add_child", "copy") or tg.kind == "class":
+                    continue
+                am_ = w.arg_map(tg, n)
+                hit = {p_ for p_, a_ in am_.items() if isinstance(a_, ast.Name) and a_.id in copy_vars}
+                if not hit:
+                    continue
+                bad_e = [e for e in eff_.effects(H) if e.root in hit and e.kind in ("W", "M")]
+                rep.oblige(("R3", "untouched", norm(n)[:50]), not bad_e)
+                if bad_e:
+                    e = bad_e[0]
+                    rep.add("R3", fi.qname, n, f"expand hands a copy to {H.name}, which rewrites its {e.field} ({e.construct} at {e.loc}): what takes the place "
+                            f"of the references node is no longer a copy of the referenced element's child", fi.loc(n))
+        elif isinstance(n, (ast.Assign, ast.AugAssign)):
+            for t in (n.targets if isinstance(n, ast.Assign) else [n.target]):
+                b_ = t
+                while isinstance(b_, (ast.Attribute, ast.Subscript)):
+                    b_ = b_.value
+                if isinstance(t, (ast.Attribute, ast.Subscript)) and isinstance(b_, ast.Name) and b_.id in copy_vars:
+                    rep.oblige(("R3", "untouched", norm(n)[:50]), False)
+                    rep.add("R3", fi.qname, n, "expand changes a copy before attaching it: what takes the place of the references node is no longer a copy of "
+                            "the referenced element's child", fi.loc(n))
     # ---- R3: the referenced element is only read
     # (the effect summary of expand restricted to the source element: add_child's receiver must be the reference's parent)
     for (call, am, tg) in adds:
@@ -350,7 +406,7 @@ def run(ctx, rep):
         "after a write to the tree, loop back edges included (may-dataflow of a WROTE marker); the copies are inserted with an index "
         "that is the position of the references node taken before its removal and advanced per copy; what is attached is a recursive "
         "copy and goes to the reference's parent; every collected reference is removed unconditionally and unregistered")
-    rep.rules_run = ["R1", "R2", "R3", "R4", "R5"]
+    rep.rules_run = ["R1", "R2", "R3", "R4", "R5", "R6"]
     rep.assumptions += ["NOT decided: that the expanded tree validates (needs C01 semantics); independence of the copies is C12"]
     only = getattr(rep, "only", None)
     if only in (None, "R1"):
@@ -359,3 +415,6 @@ def run(ctx, rep):
         rule_r2_r3_r4(ctx, rep)
     if only in (None, "R5"):
         rule_r5(ctx, rep)
+    if only in (None, "R6"):
+        from .c16_worlds import rule_r6
+        rule_r6(ctx, rep)
